@@ -82,7 +82,7 @@ func Load(root string, patterns ...string) *World {
 	}
 	fset := token.NewFileSet()
 	cfg := &packages.Config{
-		Mode:  packages.LoadAllSyntax,
+		Mode:  packages.LoadAllSyntax | packages.NeedModule,
 		Dir:   root,
 		Fset:  fset,
 		Env:   goEnv(),
@@ -331,4 +331,19 @@ func fnName(fn *ssa.Function) string {
 		return fmt.Sprintf("%s.(%s).%s", pn, tn, fn.Name())
 	}
 	return pn + "." + fn.Name()
+}
+
+// moduleVersion: version of the module providing the imported package path.
+func (w *World) moduleVersion(path string) string {
+	ver := ""
+	var pkgs []*packages.Package
+	for _, p := range w.Pkgs {
+		pkgs = append(pkgs, p)
+	}
+	packages.Visit(pkgs, nil, func(p *packages.Package) {
+		if p.PkgPath == path && p.Module != nil {
+			ver = p.Module.Version
+		}
+	})
+	return ver
 }
